@@ -255,7 +255,6 @@ func (r *rs) r2() {
 	if entries < 2 {
 		c.Undecidedf("instances", "R2.depth", token.NoPos, "only %d top-level calls of decodeResp found, 2 confirmed by hand", entries)
 	}
-	c.Expect("R2.depth", 4)
 }
 
 func recvOf(f *types.Func) types.Type {
